@@ -519,9 +519,108 @@ SUB_ALPHABET = [ev for ev in E2E_EVENTS
                 if ev[0] == 'block' or (ev[1] == 'one' and ev[5] in ('none', 'wrong'))]
 
 
+# ----------------------------------------------------------------------------------------------
+# the requirement conditions themselves
+
+# condition -> function(env value of XV_Q or None, flag on argv) -> satisfied?
+COND = collections.OrderedDict([
+    ('env:XV_Q', lambda q, fl: bool(q)),
+    ('env:XV_Q==1', lambda q, fl: q == '1'),
+    ('env:XV_Q!=1', lambda q, fl: q != '1'),
+    ('env:XV_Q==0', lambda q, fl: q == '0'),
+    ('module:os', lambda q, fl: True),
+    ('module:json.decoder', lambda q, fl: True),
+    ('module:xv_no_such_module', lambda q, fl: False),
+    ('module:json.xv_no_such_submodule', lambda q, fl: False),
+    ('linux', lambda q, fl: True), ('Linux', lambda q, fl: True), ('win32', lambda q, fl: False), ('darwin', lambda q, fl: False),
+    ('posix', lambda q, fl: True), ('nt', lambda q, fl: False),
+    ('cpython', lambda q, fl: True), ('CPython', lambda q, fl: True), ('pypy', lambda q, fl: False),
+    ('py3', lambda q, fl: True), ('PY3', lambda q, fl: True), ('py2', lambda q, fl: False),
+    ('--xv-flag', lambda q, fl: fl),
+])
+QVALS = [None, '', '0', '1']
+
+
+class ReqCondSpec(Spec):
+    """which REQUIRES conditions are met: one or two block requirements (optionally the first removed again),
+    then a statement; the statement runs iff every pending condition is satisfied in the given environment"""
+    prop = 'C04'
+    name = 'requires-conditions'
+    title = 'REQUIRES condition table (env / module / platform / implementation / command-line flag)'
+    assumptions = ('the sandbox is CPython 3 on Linux (platform tags are judged against that)',)
+    max_len = 3
+    max_cost = 99
+    batch = 64
+
+    def __init__(self):
+        self.rule = ('%d conditions x environment XV_Q in %r x command-line flag present/absent: histories +REQUIRES(c1) '
+                     '[, +REQUIRES(c2)] [, -REQUIRES(c1)], statement; non-trivial = all' % (len(COND), QVALS))
+
+    def histories(self, stats):
+        cs = list(COND)
+        for q in range(len(QVALS)):
+            for fl in (False, True):
+                for c1 in cs:
+                    yield (q, fl, c1)
+                    yield (q, fl, c1, '-')
+                    for c2 in cs:
+                        if c2 != c1 and (('XV_Q' in c1 + c2) or q == 0) and (('--' in c1 + c2) or not fl):
+                            yield (q, fl, c1, c2)
+                            yield (q, fl, c1, c2, '-')
+
+    def hist_cost(self, hist):
+        return len(hist)
+
+    def run_case(self, hist):
+        import os
+        import sys
+        q, fl = QVALS[hist[0]], hist[1]
+        conds = [c for c in hist[2:] if c != '-']
+        remove = hist[-1] == '-'
+        lines = ['>>> # xdoctest: +REQUIRES(%s)' % c for c in conds]
+        if remove:
+            lines.append('>>> # xdoctest: -REQUIRES(%s)' % conds[0])
+        lines += ['>>> T(1)']
+        pending = [c for c in (conds[1:] if remove else conds) if not COND[c](q, fl)]
+        exp_runs = not pending
+        old_env = os.environ.get('XV_Q')
+        old_argv = sys.argv
+        try:
+            if q is None:
+                os.environ.pop('XV_Q', None)
+            else:
+                os.environ['XV_Q'] = q
+            sys.argv = ['xmc'] + (['--xv-flag'] if fl else [])
+            r = harness.run_doctest('\n'.join(lines))
+        finally:
+            sys.argv = old_argv
+            if old_env is None:
+                os.environ.pop('XV_Q', None)
+            else:
+                os.environ['XV_Q'] = old_env
+        atoms = []
+        if r.raised is not None:
+            atoms.append({'sig': 'requires:run-raised:' + type(r.raised).__name__, 'msg': repr(r.raised)})
+        else:
+            v = harness.verdict_of(r.summary)
+            ran = r.trace == [1]
+            if v == 'failed':
+                atoms.append({'sig': 'requires:condition-fails-the-doctest', 'msg': '%r: %s %s' % (lines, r.exc_type, str(r.exc)[:200])})
+            elif ran != exp_runs:
+                kind = 'ran-although-unmet' if ran else 'skipped-although-met'
+                fam = (pending or conds)[0].split(':')[0].lstrip('-').lower() if (pending or conds) else ''
+                atoms.append({'sig': 'requires:%s:%s' % (kind, 'flag' if fam.startswith('xv') else fam),
+                              'msg': 'XV_Q=%r, --xv-flag %s: %r -> statement %s, pending by the documented rules: %r' % (
+                                  q, 'given' if fl else 'absent', lines, 'ran' if ran else 'did not run', pending)})
+            elif (v == 'skipped') != (not exp_runs):
+                atoms.append({'sig': 'requires:verdict', 'msg': '%r: %s' % (lines, v)})
+        return {'atoms': atoms, 'outcome': 'runs' if exp_runs else 'skips', 'case': {'doctest': '\n'.join(lines), 'XV_Q': q, 'flag': fl},
+                'nontrivial': 1}
+
+
 def specs(tier):
     if tier == 'thorough':
-        return [UnitSpec(), E2ESpec(2, 99, 'e2e-len2'), E2ESpec(3, 5, 'e2e-len3'),
+        return [UnitSpec(), ReqCondSpec(), E2ESpec(2, 99, 'e2e-len2'), E2ESpec(3, 5, 'e2e-len3'),
                 E2ESpec(4, 3, 'e2e-len4'),
                 E2ESpec(5, 99, 'e2e-sub5', alphabet=SUB_ALPHABET, with_opts=False)]
-    return [UnitSpec(), E2ESpec(2, 99, 'e2e-len2'), E2ESpec(3, 3, 'e2e-len3')]
+    return [UnitSpec(), ReqCondSpec(), E2ESpec(2, 99, 'e2e-len2'), E2ESpec(3, 3, 'e2e-len3')]
